@@ -32,8 +32,8 @@ Definition evaluated (nets : list Z) (levelorder : list ctrl) : list Z := filter
 Definition evaluate (nets : list Z) (levelorder : list ctrl) (run old : Z -> bool) : bool :=
   forallb (new_flag levelorder run old) nets.
 
-(* net_initialization_multinet: converged = False; for each net: converged = max(converged, flag) *)
-Definition init_converged (flags : list bool) : bool := fold_left orb flags false.
+(* net_initialization_multinet: converged = True; for each net: converged = min(converged, flag) *)
+Definition init_converged (flags : list bool) : bool := fold_left andb flags true.
 
 (* get_controller_order_multinet: sorted distinct levels; per level the in-service controllers of that
    level sorted by order (numpy argsort: ties in unspecified order -> the model returns the member set
@@ -78,6 +78,9 @@ Definition eval_case_ok (c : eval_case) : bool :=
   zlist_eqb (evaluated (e_nets c) (e_levelorder c)) (e_obs_evaluated c) &&
   forallb (fun n => Bool.eqb (new_flag (e_levelorder c) run old n) (lookup (e_obs_flags c) false n)) (e_nets c) &&
   Bool.eqb (evaluate (e_nets c) (e_levelorder c) run old) (e_obs_converged c).
+
+(* one observed call of the real net_initialization_multinet: flags the members have after their initial run *)
+Definition init_case_ok (c : list bool * bool) : bool := Bool.eqb (init_converged (fst c)) (snd c).
 
 (* one observed result of prepare_run_ctrl: per level the ids in the order returned *)
 Record order_case := { o_ctrls : list ctrl; o_obs_levels : list Z; o_obs_order : list (list Z) }.
